@@ -250,7 +250,7 @@ def db_check(pid, tier, seed, profile, n_quick, n_thorough, prop_module, claims_
     """generic driver for the properties decided on the database-level model"""
     ck = Check(pid, tier, seed)
     tf = use_impl()
-    b = ck.build_proofs(prop_module, extra_targets=["Run.vo"])
+    b = ck.build_proofs(prop_module, extra_targets=["Run.vo", "Refinement.vo"])
     n = n_quick if tier == "quick" else n_thorough
     corpus = load_corpus(pid)
     res = run_tie(ck, tf, n, profile, configs=configs, corpus=corpus, kwargs_for=kwargs_for)
